@@ -77,6 +77,34 @@ CHECKS["C18"] = dict(
     design="§3 C18",
 )
 
+CHECKS["C03"] = dict(
+    category="exploration",
+    text="Every variable definition over schema I (9 named types x 14 wrapper shapes, with/without default), reserved / clashing variable names and a multi-variable operation x every value of the "
+         "type-derived menu (every enum member, lists of length 0/1/2 with null items, input objects with subsets of optional fields set / None / unset, depth 2, explicit None, omitted) "
+         "x sync/async x snake on/off; the real generated method is called through MockTransport and the captured variables are judged by graphql-core coercion and a recording resolver.",
+    note="Trusted: graphql-core get_variable_values/execute as reference coercion, harness reference serialisation (ref_wire, ~15 lines).",
+    technique="bounded-exhaustive enumeration of variable definitions x argument values against the real generated client with a reference executor",
+    design="§3 C03",
+)
+CHECKS["C06"] = dict(
+    category="exploration",
+    text="One input type per (8 named kinds x 14 wrapper shapes), per default literal kind (32), per reserved/cased field name (31), nested and recursive inputs; every menu value accepted by graphql-core "
+         "coerce_input_value is built by GraphQL names and by Python names and sent through the client; missing required fields must be refused; defaults read back graphql-core's coerced default and the "
+         "recording resolver sees that default.",
+    note="Trusted: graphql-core coerce_input_value / default_value as the reference, pydantic.",
+    technique="bounded-exhaustive enumeration of input types x schema-valid values against the real generated models with graphql-core input coercion as reference",
+    design="§3 C06",
+)
+CHECKS["C07"] = dict(
+    category="exploration",
+    text="Scalar configuration {type only, +parse, +serialize, +both} x import style {relative, absolute dotted, deprecated import key} x positions (result field in 14 wrapper shapes, nested object, "
+         "fragment mixin/unpacked, variable in 14 shapes, input field in 14 shapes, nested input) x executor responses (null/length deviations) / argument menus; the call log of instrumented "
+         "parse/serialize functions is compared with the multiset of non-null occurrences.",
+    note="Trusted: graphql-core reference executor, the instrumented scalar module supplied through files_to_include.",
+    technique="bounded-exhaustive enumeration of scalar positions x configurations with call-log oracle on the real generated client",
+    design="§3 C07",
+)
+
 PENDING_REASON = "check not built yet in this round (work in progress, see DESIGN.md §6)"
 NOT_APPLICABLE = {}
 
